@@ -1,19 +1,19 @@
 (** Pinned statements of the C05 property theorems: compiled on every check, so a theorem cannot be weakened silently. *)
-From V Require Import Base.Util Gql.Ast C05.Model C05.Spec C05.Proofs6 C05.Properties.
+From V Require Import Base.Util Gql.Ast C05.Model C05.Spec C05.Witness C05.Proofs6 C05.Properties.
 
-Check (C05_complete : forall doc, spec_valid doc = true -> ok_extra_args_nullable doc = true -> check_doc doc = []).
-Check (C05_complete_extra_default_refuted : exists doc, spec_valid doc = true /\ check_doc doc <> []).
+Check (C05_complete : forall doc, spec_valid doc = true -> check_doc doc = []).
+Check (C05_complete_extra_default_accepted : spec_valid Witness.w_extra_default = true /\ check_doc Witness.w_extra_default = []).
 Check (C05_sound : forall doc, check_doc doc = [] -> unique_names doc = true -> ok_app_arg_unique doc = true ->
                    forall r, rule_ok_impl r doc = true).
 Check (C05_exact : forall doc, wf_doc doc = true ->
-  (check_doc doc = [] <-> (forall r, rule_ok_impl r doc = true) /\ ok_extra_args_nullable doc = true)).
+  (check_doc doc = [] <-> forall r, rule_ok_impl r doc = true)).
 Check (C05_sound_local : forall doc, check_doc doc = [] ->
   ok_reserved doc = true /\ ok_dup_field doc = true /\ ok_dup_arg doc = true /\ ok_dup_input_field doc = true /\
   ok_dup_enum_value doc = true /\ ok_dup_union_member doc = true /\ ok_input_in_output doc = true /\
   ok_output_in_input doc = true /\ ok_directive_unknown doc = true /\ ok_directive_misplaced doc = true /\
   ok_directive_repeated doc = true).
-Check (C05_sound_directive_args_int_range_refuted :
-  exists doc, check_doc doc = [] /\ unique_names doc = true /\ ok_app_arg_unique doc = true /\ rule_ok RDirectiveArgs doc = false).
+Check (C05_sound_directive_args_int_range_rejected :
+  rule_ok RDirectiveArgs Witness.w_int_range = false /\ check_doc Witness.w_int_range <> []).
 Check (C05_sound_directive_recursive_nested_refuted :
   exists doc, check_doc doc = [] /\ unique_names doc = true /\ ok_app_arg_unique doc = true /\ rule_ok RDirectiveRecursive doc = false).
 Check (C05_directive_recursion_exact : forall doc d, unique_names doc = true -> In d (directives_of doc) ->
@@ -27,16 +27,16 @@ Check (C05_resolve_rejects_same_kind_dup : forall doc, same_kind_dup doc = true 
 (* the definitions the statements rest on are the ones the correspondence run evaluates *)
 Check (eq_refl : rule_ok_impl = rule_ok_gen false).
 Check (eq_refl : rule_ok = rule_ok_gen true).
-Check (eq_refl : rule_ok_impl RDirectiveArgs = ok_directive_args_lenient).
+Check (eq_refl : rule_ok_impl RDirectiveArgs = ok_directive_args).
 Check (eq_refl : rule_ok_impl RDirectiveRecursive = ok_directive_recursive_shallow).
 Check (eq_refl : rule_ok RDirectiveArgs = ok_directive_args).
 Check (eq_refl : rule_ok RDirectiveRecursive = ok_directive_recursive).
 Print Assumptions C05_complete.
-Print Assumptions C05_complete_extra_default_refuted.
+Print Assumptions C05_complete_extra_default_accepted.
 Print Assumptions C05_sound.
 Print Assumptions C05_exact.
 Print Assumptions C05_sound_local.
-Print Assumptions C05_sound_directive_args_int_range_refuted.
+Print Assumptions C05_sound_directive_args_int_range_rejected.
 Print Assumptions C05_sound_directive_recursive_nested_refuted.
 Print Assumptions C05_directive_recursion_exact.
 Print Assumptions C05_recursion_fuel_enough.
